@@ -1,3 +1,726 @@
-//! C19 (size independence): stub
-pub fn check(_tier: &str, _seed: i64) -> i32 { 2 }
-pub fn cmd_child(_args: &[String]) -> i32 { 2 }
+//! C19: size independence.  A finite family of big graphs x kind mixes x
+//! cascade shapes x sizes x deterministic schedules, each instance in its own
+//! child process (a stack overflow or abort must not take the checker down),
+//! checked against a linear-time reference.
+use crate::report::*;
+use pypipegraph2::verif_hooks;
+use pypipegraph2::{JobKind, JobState, PPGEvaluator, PPGEvaluatorError, VerifStrategy};
+use rayon::prelude::*;
+use std::collections::{BTreeMap, BTreeSet, HashMap, HashSet, VecDeque};
+use std::hash::{Hash, Hasher};
+use std::rc::Rc;
+use std::time::{Duration, Instant};
+
+#[derive(Clone, Copy, PartialEq, Eq, Debug)]
+enum K {
+    A,
+    O,
+    E,
+}
+
+struct BigGraph {
+    ids: Vec<String>,
+    kinds: Vec<K>,
+    ups: Vec<Vec<usize>>,
+    downs: Vec<Vec<usize>>,
+    topo: Vec<usize>,
+}
+
+fn build(shape: &str, mix: &str, n: usize) -> BigGraph {
+    let mut edges: Vec<(usize, usize)> = Vec::new();
+    let mut layer_of: Vec<usize> = vec![0; n];
+    match shape {
+        "chain" => {
+            for i in 1..n {
+                edges.push((i - 1, i));
+                layer_of[i] = i;
+            }
+        }
+        "fanin" => {
+            for i in 0..n - 1 {
+                edges.push((i, n - 1));
+            }
+            layer_of[n - 1] = 1;
+        }
+        "fanout" => {
+            for i in 1..n {
+                edges.push((0, i));
+                layer_of[i] = 1;
+            }
+        }
+        "layered" => {
+            // k x k, every job depends on three jobs of the previous layer
+            let k = std::env::var("PPG_K").ok().and_then(|x| x.parse().ok()).unwrap_or((n as f64).sqrt().floor().max(2.0) as usize);
+            let fan: usize = std::env::var("PPG_FAN").ok().and_then(|x| x.parse().ok()).unwrap_or(3);
+            for i in 0..n {
+                layer_of[i] = (i / k).min(n / k);
+            }
+            for i in k..n {
+                let l = i / k;
+                let pos = i % k;
+                for d in 0..fan {
+                    let u = (l - 1) * k + (pos + d) % k;
+                    if u < n && !edges.contains(&(u, i)) {
+                        edges.push((u, i));
+                    }
+                }
+            }
+        }
+        "dense" => {
+            // few wide layers, complete bipartite between neighbours
+            let k = (n / 4).max(1);
+            for i in 0..n {
+                layer_of[i] = i / k;
+            }
+            for i in k..n {
+                let l = i / k;
+                for u in (l - 1) * k..l * k {
+                    edges.push((u, i));
+                }
+            }
+        }
+        _ => panic!("unknown shape"),
+    }
+    let mut ups = vec![vec![]; n];
+    let mut downs = vec![vec![]; n];
+    for (u, d) in edges.iter() {
+        ups[*d].push(*u);
+        downs[*u].push(*d);
+    }
+    let kinds: Vec<K> = (0..n)
+        .map(|i| {
+            let root = ups[i].is_empty();
+            let sink = downs[i].is_empty();
+            match mix {
+                "allO" => K::O,
+                "altOE" => {
+                    if sink || layer_of[i] % 2 == 0 {
+                        K::O
+                    } else {
+                        K::E
+                    }
+                }
+                "Aroots" => {
+                    if root {
+                        K::A
+                    } else {
+                        K::O
+                    }
+                }
+                "AEO" => {
+                    if root {
+                        K::A
+                    } else if sink {
+                        K::O
+                    } else {
+                        K::E
+                    }
+                }
+                "allE" => {
+                    if sink {
+                        K::O
+                    } else {
+                        K::E
+                    }
+                }
+                _ => panic!("unknown mix"),
+            }
+        })
+        .collect();
+    let ids: Vec<String> = (0..n).map(|i| format!("j{:06}", i)).collect();
+    let topo: Vec<usize> = (0..n).collect(); // edges always go from lower to higher index
+    BigGraph { ids, kinds, ups, downs, topo }
+}
+
+fn hval(id: &str, ver: u8, ins: &[u64]) -> u64 {
+    let mut h = std::collections::hash_map::DefaultHasher::new();
+    id.hash(&mut h);
+    ver.hash(&mut h);
+    ins.hash(&mut h);
+    h.finish()
+}
+
+struct World {
+    hist: HashMap<String, String>,
+    disk: HashSet<usize>,
+}
+
+struct Outcome {
+    started: Vec<bool>,
+    failed: Vec<bool>,
+    uf: Vec<bool>,
+    hist: HashMap<String, String>,
+    records: Vec<Option<String>>,
+    events: usize,
+    aborted: bool,
+}
+
+/// linear-time reference: which jobs a failure-free evaluation executes
+fn reference(g: &BigGraph, w: &World, ver: &[u8]) -> (Vec<bool>, Vec<bool>) {
+    let n = g.ids.len();
+    let mut rel = vec![false; n];
+    for &j in g.topo.iter().rev() {
+        rel[j] = g.kinds[j] != K::E || g.downs[j].iter().any(|d| g.kinds[*d] != K::E || rel[*d]);
+    }
+    let mut up2 = vec![false; n];
+    let mut cur: Vec<Option<String>> = vec![None; n];
+    let mut val: Vec<u64> = vec![0; n];
+    for &j in g.topo.iter() {
+        let id = &g.ids[j];
+        let mut upids: Vec<&str> = g.ups[j].iter().map(|u| &g.ids[*u][..]).collect();
+        upids.sort();
+        let has = w.hist.contains_key(id) && w.hist.get(&format!("{}!!!", id)) == Some(&upids.join("\n"));
+        let edges_ok = g.ups[j].iter().all(|u| match (w.hist.get(&format!("{}!!!{}", g.ids[*u], id)), &cur[*u]) {
+            (Some(l), Some(c)) => l == c,
+            _ => false,
+        });
+        let present = g.kinds[j] != K::O || w.disk.contains(&j);
+        up2[j] = g.kinds[j] != K::A && has && edges_ok && present;
+        if g.kinds[j] == K::A || (!up2[j] && rel[j]) {
+            let ins: Vec<u64> = g.ups[j].iter().map(|u| val[*u]).collect();
+            val[j] = hval(id, ver[j], &ins);
+            cur[j] = Some(format!("{:016x}", val[j]));
+        } else {
+            cur[j] = w.hist.get(id).cloned();
+            val[j] = cur[j].as_ref().and_then(|s| u64::from_str_radix(s, 16).ok()).unwrap_or(0);
+        }
+    }
+    let mut exec = vec![false; n];
+    for &j in g.topo.iter().rev() {
+        exec[j] = g.kinds[j] == K::A || (!up2[j] && rel[j]) || (g.kinds[j] == K::E && rel[j] && up2[j] && g.downs[j].iter().any(|d| exec[*d]));
+    }
+    (exec, rel)
+}
+
+/// drive one evaluation with a deterministic schedule
+fn evaluate(g: &BigGraph, w: &World, ver: &[u8], schedule: &str, fail: &HashSet<usize>, abort_after: Option<usize>) -> Result<Outcome, String> {
+    let n = g.ids.len();
+    let present: Rc<HashSet<String>> = Rc::new(w.disk.iter().map(|j| g.ids[*j].clone()).collect());
+    let p2 = present.clone();
+    let strat = VerifStrategy {
+        output_already_present: Rc::new(move |q: &str| p2.contains(q)),
+        is_history_altered: Rc::new(|_u: &str, _d: &str, l: &str, c: &str| l != c),
+        get_input_list: Rc::new(|_j: &str, ups: &[&str]| ups.join("\n")),
+    };
+    let mut eng = PPGEvaluator::new_with_history(w.hist.clone(), strat);
+    for j in 0..n {
+        eng.add_node(
+            &g.ids[j],
+            match g.kinds[j] {
+                K::A => JobKind::Always,
+                K::O => JobKind::Output,
+                K::E => JobKind::Ephemeral,
+            },
+        );
+    }
+    for d in 0..n {
+        for u in g.ups[d].iter() {
+            eng.depends_on(&g.ids[d], &g.ids[*u]);
+        }
+    }
+    let idx: HashMap<&str, usize> = g.ids.iter().enumerate().map(|(i, s)| (&s[..], i)).collect();
+    let err = |what: &str, e: PPGEvaluatorError| -> String {
+        let s = format!("{:?}", e);
+        format!("{}: {}", what, s.chars().take(200).collect::<String>())
+    };
+    verif_hooks::take_transitions();
+    eng.event_startup().map_err(|e| err("event_startup", e))?;
+    let mut ready: VecDeque<usize> = VecDeque::new();
+    let mut started = vec![false; n];
+    let mut val: Vec<u64> = vec![0; n];
+    let mut have: Vec<bool> = vec![false; n];
+    for j in w.disk.iter() {
+        if let Some(r) = w.hist.get(&g.ids[*j]) {
+            val[*j] = u64::from_str_radix(r, 16).unwrap_or(0);
+            have[*j] = true;
+        }
+    }
+    let mut records: Vec<Option<String>> = vec![None; n];
+    let mut failed = vec![false; n];
+    let mut events = 0usize;
+    let mut aborted = false;
+    let mut running: VecDeque<usize> = VecDeque::new();
+    let mut collect = |ready: &mut VecDeque<usize>| {
+        let mut newly: Vec<usize> = Vec::new();
+        for (id, _from, to) in verif_hooks::take_transitions() {
+            if crate::sim::is_ready_state(&to) {
+                newly.push(*idx.get(&id[..]).unwrap());
+            }
+        }
+        newly.sort();
+        for j in newly {
+            ready.push_back(j);
+        }
+    };
+    collect(&mut ready);
+    loop {
+        if eng.is_finished() {
+            break;
+        }
+        if ready.is_empty() && running.is_empty() {
+            // cross-check with the engine's own answer before calling it a stall
+            let q = eng.query_ready_to_run();
+            return Err(format!("stall: not finished, nothing ready or running (engine ready set size {})", q.len()));
+        }
+        // start
+        let to_start: Vec<usize> = match schedule {
+            "fifo" => ready.pop_front().into_iter().collect(),
+            "lifo" => ready.pop_back().into_iter().collect(),
+            _ => ready.drain(..).collect(),
+        };
+        for j in to_start {
+            eng.event_now_running(&g.ids[j]).map_err(|e| err("event_now_running", e))?;
+            started[j] = true;
+            running.push_back(j);
+            events += 1;
+        }
+        collect(&mut ready);
+        // finish everything that runs (max-concurrency: all started before any finishes)
+        while let Some(j) = running.pop_front() {
+            if fail.contains(&j) {
+                eng.event_job_finished_failure(&g.ids[j]).map_err(|e| err("event_job_finished_failure", e))?;
+                failed[j] = true;
+            } else {
+                let mut missing = None;
+                let ins: Vec<u64> = g.ups[j]
+                    .iter()
+                    .map(|u| {
+                        if !have[*u] {
+                            missing = Some(*u);
+                        }
+                        val[*u]
+                    })
+                    .collect();
+                if let Some(u) = missing {
+                    return Err(format!(
+                        "{} executed but input {} is not materialised (input kind {:?}, executed in this evaluation: {}, engine state {:?})",
+                        g.ids[j],
+                        g.ids[u],
+                        g.kinds[u],
+                        started[u],
+                        eng.verif_snapshot().jobs[u].state
+                    ));
+                }
+                val[j] = hval(&g.ids[j], ver[j], &ins);
+                have[j] = true;
+                let rec = format!("{:016x}", val[j]);
+                records[j] = Some(rec.clone());
+                eng.event_job_finished_success(&g.ids[j], rec).map_err(|e| err("event_job_finished_success", e))?;
+            }
+            events += 1;
+            collect(&mut ready);
+            if abort_after.map(|a| events >= a).unwrap_or(false) {
+                // abort: report running jobs failed first, like the python runner
+                while let Some(r) = running.pop_front() {
+                    eng.event_job_finished_failure(&g.ids[r]).map_err(|e| err("event_job_finished_failure", e))?;
+                    failed[r] = true;
+                }
+                eng.abort_remaining().map_err(|e| err("abort_remaining", e))?;
+                aborted = true;
+                break;
+            }
+        }
+        if aborted {
+            break;
+        }
+        // acknowledge cleanups (lifo: delayed until the end)
+        if schedule != "lifo" {
+            let mut cl: Vec<String> = eng.query_ready_for_cleanup().into_iter().collect();
+            cl.sort();
+            for c in cl {
+                eng.event_job_cleanup_done(&c).map_err(|e| err("event_job_cleanup_done", e))?;
+                have[*idx.get(&c[..]).unwrap()] = false;
+            }
+        }
+    }
+    if !eng.is_finished() {
+        return Err("not finished after abort".into());
+    }
+    if !aborted {
+        let r = eng.query_ready_to_run();
+        if !r.is_empty() || !eng.query_jobs_running().is_empty() {
+            return Err("finished but ready/running non-empty".into());
+        }
+    }
+    let ufs = eng.query_upstream_failed();
+    let uf: Vec<bool> = (0..n).map(|j| ufs.contains(&g.ids[j])).collect();
+    let hist = eng.new_history().map_err(|e| err("new_history", e))?;
+    Ok(Outcome {
+        started,
+        failed,
+        uf,
+        hist,
+        records,
+        events,
+        aborted,
+    })
+}
+
+fn apply(g: &BigGraph, w: &mut World, o: &Outcome) {
+    w.hist = o.hist.clone();
+    for j in 0..g.ids.len() {
+        if g.kinds[j] == K::O {
+            if o.started[j] && !o.failed[j] && o.records[j].is_some() {
+                w.disk.insert(j);
+            } else if o.failed[j] {
+                w.disk.remove(&j);
+            }
+        }
+    }
+}
+
+fn count(v: &[bool]) -> usize {
+    v.iter().filter(|x| **x).count()
+}
+
+fn check_against_reference(g: &BigGraph, w: &World, ver: &[u8], o: &Outcome, what: &str, viol: &mut Vec<String>) {
+    let (exec, _rel) = reference(g, w, ver);
+    let n = g.ids.len();
+    let any_failed = o.failed.iter().any(|x| *x);
+    let mut extra = 0;
+    let mut missing = 0;
+    let mut first = None;
+    for j in 0..n {
+        if o.started[j] && !exec[j] {
+            extra += 1;
+            first.get_or_insert(j);
+        }
+        if !any_failed && !o.aborted && exec[j] && !o.started[j] {
+            missing += 1;
+            first.get_or_insert(j);
+        }
+    }
+    if extra + missing > 0 {
+        viol.push(format!(
+            "{}: executed set differs from the reference: {} extra, {} missing (first {}), executed {} expected {}",
+            what,
+            extra,
+            missing,
+            g.ids[first.unwrap()],
+            count(&o.started),
+            count(&exec)
+        ));
+    }
+    // records of executed jobs
+    let mut bad = 0;
+    for j in 0..n {
+        if o.started[j] && !o.failed[j] && !o.aborted {
+            if o.hist.get(&g.ids[j]) != o.records[j].as_ref() {
+                bad += 1;
+            }
+        }
+        if o.failed[j] && o.hist.contains_key(&g.ids[j]) {
+            bad += 1;
+        }
+    }
+    if bad > 0 {
+        viol.push(format!("{}: {} jobs with wrong own record in the returned history", what, bad));
+    }
+}
+
+/// one instance; prints a JSON line
+pub fn cmd_child(args: &[String]) -> i32 {
+    let (shape, mix, cascade, n, schedule) = (&args[0][..], &args[1][..], &args[2][..], args[3].parse::<usize>().unwrap(), &args[4][..]);
+    let g = build(shape, mix, n);
+    let mut w = World {
+        hist: HashMap::new(),
+        disk: HashSet::new(),
+    };
+    let mut ver = vec![0u8; n];
+    let none: HashSet<usize> = HashSet::new();
+    let mut viol: Vec<String> = Vec::new();
+    let mut events = 0;
+    let mut started = 0;
+    let t = Instant::now();
+    let roots: Vec<usize> = (0..n).filter(|j| g.ups[*j].is_empty()).collect();
+    let sinks: Vec<usize> = (0..n).filter(|j| g.downs[*j].is_empty()).collect();
+    let mut run = |w: &mut World, ver: &[u8], fail: &HashSet<usize>, abort: Option<usize>, what: &str, viol: &mut Vec<String>| -> Option<Outcome> {
+        match std::panic::catch_unwind(std::panic::AssertUnwindSafe(|| evaluate(&g, w, ver, schedule, fail, abort))) {
+            Ok(Ok(o)) => {
+                check_against_reference(&g, w, ver, &o, what, viol);
+                events += o.events;
+                started += count(&o.started);
+                apply(&g, w, &o);
+                Some(o)
+            }
+            Ok(Err(e)) => {
+                viol.push(format!("{}: {}", what, e));
+                None
+            }
+            Err(p) => {
+                viol.push(format!("{}: panic {}", what, crate::sim::panic_msg(&p)));
+                None
+            }
+        }
+    };
+    let first = run(&mut w, &ver, &none, None, "first build", &mut viol);
+    if first.is_some() && cascade != "first" {
+        // invalidate the first root in the way its kind allows
+        let mut invalidate_root = |w: &mut World, ver: &mut Vec<u8>| {
+            let r = roots[0];
+            match g.kinds[r] {
+                K::A => ver[r] ^= 1,
+                K::O => {
+                    w.disk.remove(&r);
+                    ver[r] ^= 1;
+                }
+                K::E => {
+                    w.hist.remove(&g.ids[r]);
+                    ver[r] ^= 1;
+                }
+            }
+        };
+        match cascade {
+            "noop" => {
+                if let Some(o) = run(&mut w, &ver, &none, None, "no-op re-evaluation", &mut viol) {
+                    for j in 0..n {
+                        if o.started[j] && g.kinds[j] == K::O {
+                            viol.push(format!("no-op re-evaluation executed Output {}", g.ids[j]));
+                            break;
+                        }
+                    }
+                }
+            }
+            "inval-root" => {
+                invalidate_root(&mut w, &mut ver);
+                run(&mut w, &ver, &none, None, "invalidation at the root", &mut viol);
+            }
+            "inval-leaf" => {
+                let s = *sinks.last().unwrap();
+                w.disk.remove(&s);
+                run(&mut w, &ver, &none, None, "invalidation at the leaf", &mut viol);
+            }
+            "fail-root" => {
+                invalidate_root(&mut w, &mut ver);
+                let mut f = HashSet::new();
+                f.insert(roots[0]);
+                if let Some(o) = run(&mut w, &ver, &f, None, "failure at the root", &mut viol) {
+                    // every non-Ephemeral descendant of the root must be upstream-failed
+                    let mut desc = vec![false; n];
+                    desc[roots[0]] = true;
+                    let mut bad = 0;
+                    for &j in g.topo.iter() {
+                        if j != roots[0] && g.ups[j].iter().any(|u| desc[*u]) {
+                            desc[j] = true;
+                            if !o.uf[j] && g.kinds[j] != K::E {
+                                bad += 1;
+                            }
+                            if o.started[j] {
+                                bad += 1;
+                            }
+                        }
+                    }
+                    if bad > 0 {
+                        viol.push(format!("failure at the root: {} descendants not reported upstream-failed / executed", bad));
+                    }
+                    // and the resume repairs everything
+                    run(&mut w, &ver, &none, None, "resume after root failure", &mut viol);
+                }
+            }
+            "abort" => {
+                invalidate_root(&mut w, &mut ver);
+                let half = (n / 2).max(1);
+                if run(&mut w, &ver, &none, Some(half), "abort mid-way", &mut viol).is_some() {
+                    run(&mut w, &ver, &none, None, "resume after abort", &mut viol);
+                }
+            }
+            _ => {
+                eprintln!("unknown cascade");
+                return 2;
+            }
+        }
+    }
+    println!(
+        "{}",
+        serde_json::json!({"shape": shape, "mix": mix, "cascade": cascade, "size": n, "schedule": schedule, "violations": viol, "events": events, "executed": started, "wall_s": t.elapsed().as_secs_f64()})
+    );
+    0
+}
+
+fn run_child(exe: &std::path::Path, inst: &[String], timeout: Duration) -> Result<serde_json::Value, String> {
+    use std::process::{Command, Stdio};
+    let mut child = Command::new(exe).arg("big-child").args(inst).stdout(Stdio::piped()).stderr(Stdio::null()).spawn().map_err(|e| format!("spawn: {}", e))?;
+    let t0 = Instant::now();
+    loop {
+        match child.try_wait() {
+            Ok(Some(status)) => {
+                let mut out = String::new();
+                use std::io::Read;
+                child.stdout.take().unwrap().read_to_string(&mut out).ok();
+                if !status.success() {
+                    return Ok(serde_json::json!({"crashed": format!("{:?}", status), "violations": [format!("engine crashed the process: {:?}", status)]}));
+                }
+                return serde_json::from_str(out.lines().last().unwrap_or("")).map_err(|e| format!("bad child output: {} / {}", e, out));
+            }
+            Ok(None) => {
+                if t0.elapsed() > timeout {
+                    child.kill().ok();
+                    child.wait().ok();
+                    return Ok(serde_json::json!({"timeout": true, "violations": []}));
+                }
+                std::thread::sleep(Duration::from_millis(5));
+            }
+            Err(e) => return Err(format!("wait: {}", e)),
+        }
+    }
+}
+
+pub fn check(tier: &str, seed: i64) -> i32 {
+    let t0 = Instant::now();
+    let exe = std::env::current_exe().unwrap();
+    let thorough = tier == "thorough";
+    let sizes: Vec<usize> = if thorough { vec![10, 100, 400, 600, 1000, 1600, 3000, 10000, 30000] } else { vec![10, 100, 600, 1600, 4000] };
+    let shapes = ["chain", "layered", "fanin", "fanout", "dense"];
+    let mixes = ["allO", "altOE", "Aroots", "AEO", "allE"];
+    let cascades = ["first", "noop", "inval-root", "inval-leaf", "fail-root", "abort"];
+    let schedules = ["fifo", "lifo", "maxconc"];
+    let mut insts: Vec<Vec<String>> = Vec::new();
+    for sz in sizes.iter() {
+        for sh in shapes.iter() {
+            if *sh == "dense" && *sz > 700 {
+                continue; // n^2/16 edges: bounded separately
+            }
+            for mx in mixes.iter() {
+                for ca in cascades.iter() {
+                    for sc in schedules.iter() {
+                        insts.push(vec![sh.to_string(), mx.to_string(), ca.to_string(), sz.to_string(), sc.to_string()]);
+                    }
+                }
+            }
+        }
+    }
+    let timeout = Duration::from_secs(if thorough { 900 } else { 240 });
+    let results: Vec<(Vec<String>, Result<serde_json::Value, String>)> = insts.par_iter().map(|i| (i.clone(), run_child(&exe, i, timeout))).collect();
+    let mut groups: BTreeMap<String, (u64, Vec<String>, String)> = BTreeMap::new();
+    let mut timeouts = Vec::new();
+    let mut evs: u64 = 0;
+    let mut executed: u64 = 0;
+    let mut samples = Vec::new();
+    let mut outcomes: BTreeSet<String> = BTreeSet::new();
+    for (inst, r) in results.iter() {
+        match r {
+            Err(e) => {
+                eprintln!("MACHINERY ERROR: {:?}: {}", inst, e);
+                return 2;
+            }
+            Ok(j) => {
+                if j.get("timeout").is_some() {
+                    timeouts.push(inst.join(" "));
+                    continue;
+                }
+                evs += j["events"].as_u64().unwrap_or(0);
+                executed += j["executed"].as_u64().unwrap_or(0);
+                outcomes.insert(format!("{} {} {} {} -> {}", inst[0], inst[1], inst[2], inst[3], j["executed"]));
+                if samples.len() < 3 && inst[3] != "10" {
+                    samples.push(j.clone());
+                }
+                for v in j["violations"].as_array().cloned().unwrap_or_default() {
+                    let msg = v.as_str().unwrap_or("").to_string();
+                    // signature: the kind of failure, independent of size and schedule
+                    let kind = classify(&msg);
+                    let e = groups.entry(kind).or_insert((0, inst.clone(), msg.clone()));
+                    e.0 += 1;
+                    if inst[3].parse::<usize>().unwrap() < e.1[3].parse::<usize>().unwrap() {
+                        e.1 = inst.clone();
+                        e.2 = msg;
+                    }
+                }
+            }
+        }
+    }
+    let known = load_known();
+    let mut code = 0;
+    let mut nviol = 0;
+    let mut known_lines = Vec::new();
+    let out_dir = verif_dir().join("out").join("replays");
+    std::fs::create_dir_all(&out_dir).ok();
+    for (kind, (cnt, inst, msg)) in groups.iter() {
+        let mut tags = BTreeMap::new();
+        tags.insert("kind".to_string(), kind.clone());
+        if let Some(k) = known.iter().find(|k| matches(k, "C19", "big-instance", &tags)) {
+            let l = format!("KNOWN-FINDING: property=C19 {} {} [{} instances, smallest: {}]", k.id, k.what_fails, cnt, inst.join(" "));
+            println!("{}", l);
+            known_lines.push(l);
+            continue;
+        }
+        // re-run the smallest failing instance twice before reporting
+        let mut reproduced = 0;
+        for _ in 0..2 {
+            if let Ok(j) = run_child(&exe, inst, timeout) {
+                if j["violations"].as_array().map(|a| a.iter().any(|v| classify(v.as_str().unwrap_or("")) == *kind)).unwrap_or(false) {
+                    reproduced += 1;
+                }
+            }
+        }
+        if reproduced < 2 {
+            eprintln!("MACHINERY ERROR: C19 instance {:?} not reproducible ({}): {}", inst, reproduced, msg);
+            return 2;
+        }
+        let path = out_dir.join(format!("C19_{}.json", nviol));
+        std::fs::write(&path, serde_json::to_string_pretty(&serde_json::json!({"big_instance": inst, "kind": kind, "message": msg})).unwrap()).ok();
+        println!("VIOLATION property=C19 replay={}", path.display());
+        eprintln!("   {} instances: {} (smallest {})", cnt, msg, inst.join(" "));
+        nviol += 1;
+        code = 1;
+    }
+    let mut c = crate::chain::Counters::default();
+    c.configurations = insts.len() as u64;
+    c.transitions = evs;
+    c.states = evs;
+    let mut ex = crate::monitors::Exercised::default();
+    ex.add("C19.instances", insts.len() as u64);
+    ex.add("C19.jobs-executed", executed);
+    write_evidence(EvidenceInput {
+        prop: "C19",
+        tier,
+        level: "exploration",
+        seed,
+        wall_s: t0.elapsed().as_secs_f64(),
+        counters: &c,
+        ex: &ex,
+        samples,
+        bounds_completed: vec![format!(
+            "shapes {:?} x mixes {:?} x cascades {:?} x sizes {:?} x schedules {:?}; dense only up to 700 jobs",
+            shapes, mixes, cascades, sizes, schedules
+        )],
+        caps_hit: timeouts.iter().map(|t| format!("instance not finished within {}s: {}", timeout.as_secs(), t)).collect(),
+        violations: nviol,
+        known_findings: known_lines,
+        rule: "a case is one instance (shape, kind mix, cascade, size, deterministic schedule) run in its own process against the real engine and compared with a linear-time reference; distinct = distinct (shape, mix, cascade, size) with its number of executed jobs; non-trivial = size >= 100".into(),
+        exhaustive: timeouts.is_empty(),
+        assumptions: vec![
+            "exhaustive over the finite family listed in bounds_completed, NOT over schedules: three deterministic schedules per instance".into(),
+            "main-thread default stack of the child process (8 MiB) is what a user has".into(),
+        ],
+        distinct_nontrivial: outcomes.iter().filter(|o| !o.contains(" 10 -> ")).count() as u64,
+        extra: serde_json::json!({"instances": insts.len(), "timeouts": timeouts.len()}),
+    });
+    eprintln!("[C19] {} instances, {} events, {} violation kinds, {} timeouts, {:.1}s", insts.len(), evs, groups.len(), timeouts.len(), t0.elapsed().as_secs_f64());
+    code
+}
+
+fn classify(msg: &str) -> String {
+    let phase = msg.split(':').next().unwrap_or("").to_string();
+    let what = if msg.contains("Depth ConsiderJob") {
+        "depth-limit"
+    } else if msg.contains("crashed") {
+        "crash"
+    } else if msg.contains("InternalError") {
+        "internal-error"
+    } else if msg.contains("panic") {
+        "panic"
+    } else if msg.contains("stall") {
+        "stall"
+    } else if msg.contains("executed set differs") {
+        "executed-set"
+    } else if msg.contains("not materialised") {
+        "missing-input"
+    } else if msg.contains("upstream-failed") {
+        "uf-reporting"
+    } else if msg.contains("own record") {
+        "records"
+    } else {
+        "other"
+    };
+    format!("{}/{}", what, phase)
+}
